@@ -81,21 +81,23 @@ def rule_reg(ctx):
     for ci in classes + part_base(p).all_subclasses():
         if "tag_name" in ci.methods:
             ctx.undecided("C03.REG", ci.short, "tag_name overridden in a subclass", ci=ci)
-    # registry function: register_message appends its argument and returns it
+    # registry functions: register_message appends its argument to the one class-level list and returns it;
+    # all_message_classes returns that same list
     reg = base.find_method("register_message")
-    ok = False
-    if reg is not None:
-        paths = run_method(p, reg, self_val=Cls(base))
-        ok = all(
-            pa.outcome == "return" and show(pa.value) == "message_class"
-            and any(is_call(e.data["term"], method="append") and show(e.data["args"][0]) == "message_class" for e in pa.events if e.kind == "call")
-            for pa in paths
-        )
-    ctx.check(ok, "C03.REG", "register_message", "appends the class and returns it", "register_message does not append/return its argument on every path", fi=reg, text="register_message")
     allc = base.find_method("all_message_classes")
-    paths = run_method(p, allc, self_val=Cls(base))
-    ok = all(pa.outcome == "return" and show(pa.value) in ("IndiMessage._message_classes", "cls._message_classes") for pa in paths)
-    ctx.check(ok, "C03.REG", "all_message_classes", "returns the registry list", "all_message_classes does not return the registry list", fi=allc, text="all_message_classes")
+    state = {}
+
+    def run_reg(it: Interp):
+        r1 = it.run_function(Fn(reg, Cls(base)), [Term("param", "message_class")], {})
+        state["ret"] = r1
+        state["list"] = it.run_function(Fn(allc, Cls(base)), [], {})
+        return r1
+
+    paths = explore(p, run_reg, {"inline": lambda fi, node: False})
+    ok = len(paths) == 1 and paths[0].outcome == "return" and show(state.get("ret")) == "message_class"
+    lst = state.get("list")
+    ok_list = isinstance(lst, Lst) and [show(x) for x in lst.items] == ["message_class"]
+    ctx.check(ok and ok_list, "C03.REG", "register_message", "appends the class to the registry that all_message_classes returns, and returns the class", "register_message / all_message_classes do not maintain one shared registry list (append + return the argument; return the list)", fi=reg, text="register_message")
 
 
 # ------------------------------------------------------------- C03.SYM / VALUE / STABLE
@@ -295,18 +297,38 @@ def rule_write(ctx):
             ctx.holds("C03.WRITE", inst, "all non-None attributes, text and ordered children written (symbol/0/''/None probes)", fi=f)
     ctx.floor("C03.WRITE", "to_xml evaluations", n, 100)
     ctx.exhaustive_domains.append("every concrete class x {symbol, 0, '', None} attribute fill")
-    # to_string: declaration + serialised element + newline, from to_xml of self
+    # to_string: declaration + serialised element + newline, from to_xml of self; the bytes must be self-describing:
+    # default serialisation (us-ascii with character references) or an encoding that the declaration names
     ts = msg_base(p).find_method("to_string")
     paths = run_method(p, ts)
     ok = True
+    why = ""
     for pa in paths:
         v = pa.value
         txt = show(v) if v is not None else ""
-        if pa.outcome != "return" or "tostring(self.to_xml())" not in txt.replace("xml.etree.cElementTree.", "").replace("xml.etree.ElementTree.", ""):
-            ok = False
-        if not (txt.rstrip(")").endswith("b'\\n'")):
-            ok = False
-    ctx.check(ok, "C03.WRITE", ts.short, "wire form = declaration + element + newline", f"to_string does not return <declaration> + tostring(self.to_xml()) + newline: {show(paths[0].value)[:100] if paths and paths[0].value is not None else None}", fi=ts, text="to_string")
+        calls = [e for e in pa.events if e.kind == "call" and isinstance(e.data["callee"], Foreign) and e.data["callee"].dotted.endswith(".tostring")]
+        if pa.outcome != "return" or len(calls) != 1:
+            ok, why = False, "does not serialise the element exactly once with ElementTree.tostring"
+            continue
+        a = calls[0].data["args"]
+        kw = calls[0].data["kwargs"]
+        if not a or show(a[0]) != "self.to_xml()":
+            ok, why = False, "does not serialise self.to_xml()"
+        enc = kw.get("encoding", a[1] if len(a) > 1 else None)
+        encv = enc.v if isinstance(enc, Const) else ("?" if enc is not None else None)
+        decl = "".join(t.v.decode("latin1") for t in subterms(v) if isinstance(t, Const) and isinstance(t.v, bytes))
+        if encv not in (None, "us-ascii", "ascii", "US-ASCII"):
+            named = f'encoding="{encv}"' in decl or f"encoding='{encv}'" in decl
+            own_decl = isinstance(kw.get("xml_declaration"), Const) and kw["xml_declaration"].v is True
+            if encv == "unicode" or not (named or own_decl):
+                ok, why = False, f"serialises with encoding={encv!r} (raw non-ASCII bytes) under a declaration that does not name that encoding: text with characters above U+007F is not read back (ParseError or mojibake)"
+        if "<?xml" not in decl and not (isinstance(kw.get("xml_declaration"), Const) and kw["xml_declaration"].v):
+            ok, why = False, "no XML declaration"
+        if not decl.endswith("\n") and not txt.rstrip(")").endswith("b'\\n'"):
+            ok, why = False, "no trailing newline"
+        if not mentions(v, lambda t: t is calls[0].data["term"]):
+            ok, why = False, "the serialised element is not part of the result"
+    ctx.check(ok, "C03.WRITE", ts.short, "wire form = declaration + element (self-describing encoding) + newline", f"to_string {why}", fi=ts, text=f"to_string:{why[:40]}", witness="label='Temperature [\u00b0C]'")
 
 
 # ------------------------------------------------------------------------ C03.READ
